@@ -21,3 +21,88 @@ pub open spec fn chan_wf(c: Channel) -> bool {
     && c.enforcement_state.next_counterparty_revoke_num + 2 < COMMIT_LIMIT
     && c.persisted@ == c.enforcement_state
 }
+
+// ---- C01: "counterparty signatures that verify against the transaction it rebuilt" -------------
+pub uninterp spec fn setup_features(setup: ChannelSetup) -> ChannelTypeFeatures;
+pub uninterp spec fn holder_tx_keys_spec(keys: InMemorySigner, setup: ChannelSetup, point: PublicKey) -> TxCreationKeys;
+// LDK CommitmentTransaction::new_with_auxiliary_htlc_data for the holder side, a function of the channel's
+// static data and exactly these arguments
+pub uninterp spec fn holder_ctx_spec(ckeys: InMemorySigner, setup: ChannelSetup, n: u64, keys: TxCreationKeys, feerate: u32, to_holder: u64, to_cp: u64,
+    htlcs: Seq<HTLCOutputInCommitment>) -> CommitmentTransaction;
+
+pub open spec fn setup_is_anchors(s: ChannelSetup) -> bool {
+    s.commitment_type == CommitmentType::Anchors || s.commitment_type == CommitmentType::AnchorsZeroFeeHtlc
+}
+pub open spec fn setup_is_zero_fee_htlc(s: ChannelSetup) -> bool { s.commitment_type == CommitmentType::AnchorsZeroFeeHtlc }
+
+pub open spec fn oic_of(h: HTLCInfo2, offered: bool) -> HTLCOutputInCommitment {
+    HTLCOutputInCommitment { offered, amount_msat: (h.value_sat * 1000) as u64, cltv_expiry: h.cltv_expiry,
+        payment_hash: h.payment_hash, transaction_output_index: None }
+}
+pub open spec fn oic_spec(offered: Seq<HTLCInfo2>, received: Seq<HTLCInfo2>) -> Seq<HTLCOutputInCommitment> {
+    offered.map(|i: int, h: HTLCInfo2| oic_of(h, true)) + received.map(|i: int, h: HTLCInfo2| oic_of(h, false))
+}
+pub open spec fn htlcs_msat_fit(s: Seq<HTLCInfo2>) -> bool {
+    forall|i: int| 0 <= i < s.len() ==> (#[trigger] s[i]).value_sat * 1000 <= u64::MAX
+}
+
+pub open spec fn htlc_sig_valid(ckeys: InMemorySigner, setup: ChannelSetup, point: PublicKey, txkeys: TxCreationKeys, feerate: u32, ctx: CommitmentTransaction,
+    i: int, sig: Signature) -> bool
+{
+    let htlc = ctx_htlcs(ctx)[i];
+    let features = setup_features(setup);
+    let build_feerate = if setup_is_zero_fee_htlc(setup) { 0u32 } else { feerate };
+    let ty = if setup_is_anchors(setup) { EcdsaSighashType::SinglePlusAnyoneCanPay } else { EcdsaSighashType::All };
+    let tx = htlc_tx(ctx_txid(ctx), build_feerate, setup.counterparty_selected_contest_delay, htlc, features,
+        txkeys.broadcaster_delayed_payment_key, txkeys.revocation_key);
+    let htlc_pk = derived_public_key(point, ldk_counterparty_pubkeys(ckeys)->Some_0.htlc_basepoint.0);
+    ecdsa_valid(message_of_digest(sighash_p2wsh(tx, 0, htlc_redeemscript(htlc, features, txkeys), htlc.amount_msat / 1000, ty)), sig, htlc_pk)
+}
+pub open spec fn holder_sigs_valid(ckeys: InMemorySigner, setup: ChannelSetup, point: PublicKey, txkeys: TxCreationKeys, feerate: u32, commit_sig: Signature,
+    htlc_sigs: Seq<Signature>, ctx: CommitmentTransaction) -> bool
+{
+    let redeem = funding_redeemscript(ldk_pubkeys(ckeys).funding_pubkey, setup.counterparty_points.funding_pubkey);
+    ecdsa_valid(message_of_digest(sighash_p2wsh(ctx_built_tx(ctx), 0, redeem, setup.channel_value_sat, EcdsaSighashType::All)),
+        commit_sig, setup.counterparty_points.funding_pubkey)
+    && ctx_htlcs(ctx).len() <= htlc_sigs.len()
+    && forall|i: int| 0 <= i < ctx_htlcs(ctx).len() ==> htlc_sig_valid(ckeys, setup, point, txkeys, feerate, ctx, i, htlc_sigs[i])
+}
+// holder commitment n with content `info` was counter-signed: both the commitment signature and every HTLC
+// signature verify against the transaction the signer rebuilds from `info` and the channel's own keys
+pub open spec fn holder_commitment_verified(ckeys: InMemorySigner, setup: ChannelSetup, n: u64, info: CommitmentInfo2, sigs: CommitmentSignatures) -> bool {
+    let point = ldk_commitment_point(ckeys, (INITIAL_COMMITMENT_NUMBER - n) as u64);
+    let txkeys = holder_tx_keys_spec(ckeys, setup, point);
+    let ctx = holder_ctx_spec(ckeys, setup, n, txkeys, info.feerate_per_kw, info.to_broadcaster_value_sat, info.to_countersigner_value_sat,
+        oic_spec(info.offered_htlcs@, info.received_htlcs@));
+    !info.is_counterparty_broadcaster
+    && holder_sigs_valid(ckeys, setup, point, txkeys, info.feerate_per_kw, sigs.0, sigs.1@, ctx)
+}
+// C01 representation invariant: a stored successor is always a verified one, for the next number
+pub open spec fn hc_inv(c: Channel) -> bool {
+    match c.enforcement_state.next_holder_commit_info {
+        Some((i, s)) => holder_commitment_verified(c.keys, c.setup, c.enforcement_state.next_holder_commit_num, i, s),
+        None => true,
+    }
+}
+
+// CommitmentInfo2::new normalises (sorts) the two HTLC lists and stores the rest verbatim
+pub open spec fn info2_built(r: CommitmentInfo2, is_cp: bool, to_countersigner: u64, to_broadcaster: u64,
+    offered: Seq<HTLCInfo2>, received: Seq<HTLCInfo2>, feerate: u32) -> bool
+{
+    r.is_counterparty_broadcaster == is_cp && r.to_countersigner_value_sat == to_countersigner
+    && r.to_broadcaster_value_sat == to_broadcaster && r.feerate_per_kw == feerate
+    && r.offered_htlcs@.to_multiset() == offered.to_multiset()
+    && r.received_htlcs@.to_multiset() == received.to_multiset()
+}
+pub proof fn lemma_msat_fit_multiset(a: Seq<HTLCInfo2>, b: Seq<HTLCInfo2>)
+    requires a.to_multiset() == b.to_multiset(), htlcs_msat_fit(a),
+    ensures htlcs_msat_fit(b),
+{
+    assert forall|i: int| 0 <= i < b.len() implies (#[trigger] b[i]).value_sat * 1000 <= u64::MAX by {
+        broadcast use vstd::seq_lib::group_seq_properties;
+        b.to_multiset_ensures();
+        a.to_multiset_ensures();
+        assert(b.to_multiset().count(b[i]) > 0);
+        assert(a.contains(b[i]));
+    }
+}
